@@ -10,4 +10,5 @@ MUTANTS=[
  ('revert-cflags-in-key', '\t\t"CCFLAGS",\n\t\t"CFLAGS",\n', ''),
  ('opt-level-flags-not-in-key', '\tif len(c.crossCompile.CCFLAGS) > 0 {\n', '\tif false {\n'),
  ('revert-sibling-files-digested', '\t\t\tif sibling := filepath.Join(cDir, e.Name()); e.Type().IsRegular() && !seen[sibling] {', '\t\t\tif sibling := filepath.Join(cDir, e.Name()); false && !seen[sibling] {'),
+ ('revert-subdirectory-headers-digested', '\t\tif e.IsDir() {\n\t\t\tfiles = appendIncludable(files, seen, path, false)\n\t\t} else if', '\t\tif e.IsDir() {\n\t\t} else if'),
 ]
